@@ -194,6 +194,19 @@ def D32():
     assert not any(lists_in_union(m.type) for m in r.models), "a union with several list members survives merge_models"
 
 
+def D33():
+    from json_to_models.generator import MetadataGenerator
+    from json_to_models.registry import ModelRegistry
+    from json_to_models.dynamic_typing import StringSerializableRegistry
+    g = MetadataGenerator(StringSerializableRegistry()); r = ModelRegistry()
+    r.process_meta_data(g.generate({"a": {"x": 1}}), "A")
+    second = [m for m in r.models if m.name is None][0]
+    r.process_meta_data(g.generate({"y": "s"}), "A_" + second.index)       # the name the duplicate is about to get
+    r.merge_models(g); r.generate_names()
+    names = [m.name for m in r.models]
+    assert len(set(names)) == len(names), f"duplicate class names {names}"
+
+
 def D13():
     samples = [{"a": None}, {"a": ["1"]}]
     for fw in ("attrs", "dataclasses"):
